@@ -9,8 +9,8 @@
    The defects K4 / K10 / K11 / K12 found by the first version of this check were repaired in
    /repo (5f128ae, 9e24eea, d67b12a); the model transcribes the repaired code, the former
    `_partial` statements are now proved at full strength and the former `_refuted` witnesses
-   are kept as regression lemmas.  One statement is still FALSE for the code as it is:
-   datetime_between with `timezone: False` (C11_timezone_false_refuted, finding C11-K13). *)
+   are kept as regression lemmas; so is the witness of K13 (timezone: False rejected after the
+   clamp was introduced, repaired by 354b020). *)
 From Coq Require Import ZArith List.
 From SFV Require Import Base RandFuncs.
 From SFV.P Require Import RandFuncsP.
@@ -207,16 +207,16 @@ Proof. exact datetime_fn_instant. Qed.
 Print Assumptions C11_instants_preserved.
 
 (* THE PROPERTY at full strength: every pair of bounds (offsets, fractional seconds, equal
-   bounds, now/today), every draw, every presentation zone t: start <= v <= end as the
-   instants the user wrote; reversed bounds are a DataGenError for every draw and zone. *)
+   bounds, now/today), every draw, every presentation zone tz (None = timezone: False):
+   start <= v <= end as the instants the user wrote; reversed bounds are a DataGenError. *)
 Theorem C11_datetime_between_bounds :
-  forall c s e t num den ps pe,
+  forall c s e tz num den ps pe,
   parse_datetimespec c s = Ok ps -> parse_datetimespec c e = Ok pe -> 0 <= num < den ->
   (instant pe < instant ps ->
-     forall tz d, exists m, datetime_between c s e tz d den = Err (DGE m)) /\
+     forall d, exists m, datetime_between c s e tz d den = Err (DGE m)) /\
   (instant ps <= instant pe ->
-     exists v o, datetime_between c s e (Some t) (Some num) den = Ok (v, o) /\
-                 instant ps <= v <= instant pe /\ (o = Some t \/ o = Some 0)).
+     exists v o, datetime_between c s e tz (Some num) den = Ok (v, o) /\
+                 instant ps <= v <= instant pe /\ (o = tz \/ o = bound_zone tz)).
 Proof. exact datetime_between_bounds. Qed.
 Print Assumptions C11_datetime_between_bounds.
 
@@ -224,36 +224,30 @@ Print Assumptions C11_datetime_between_bounds.
 Theorem C11_clamp_any_draw :
   forall rc lo hi tz, lo <= hi ->
   lo <= fst (clamp rc lo hi tz) <= hi /\
-  (snd (clamp rc lo hi tz) = tz \/ snd (clamp rc lo hi tz) = Some 0).
+  (snd (clamp rc lo hi tz) = tz \/ snd (clamp rc lo hi tz) = bound_zone tz).
 Proof. exact clamp_between. Qed.
 Print Assumptions C11_clamp_any_draw.
 
 (* the clamp is not what produces the values: on whole-second starts with the end in a later
    second the result is exactly Faker's draw *)
 Theorem C11_datetime_between_unclamped :
-  forall c s e t num den ps pe,
+  forall c s e tz num den ps pe,
   parse_datetimespec c s = Ok ps -> parse_datetimespec c e = Ok pe -> 0 <= num < den ->
   instant ps mod US = 0 -> floor_sec (instant ps) < floor_sec (instant pe) ->
-  datetime_between c s e (Some t) (Some num) den =
-    Ok (faker_dt_between (floor_sec (instant ps)) (floor_sec (instant pe)) num den, Some t).
+  datetime_between c s e tz (Some num) den =
+    Ok (faker_dt_between (floor_sec (instant ps)) (floor_sec (instant pe)) num den, tz).
 Proof. exact datetime_between_unclamped. Qed.
 Print Assumptions C11_datetime_between_unclamped.
 
-(* KNOWN FINDING C11-K13 (introduced by d67b12a): with `timezone: False` every valid range fails,
-   for every draw (naive Faker result compared with aware bounds) *)
-Theorem C11_timezone_false_refuted :
-  (forall c s e num den ps pe,
-     parse_datetimespec c s = Ok ps -> parse_datetimespec c e = Ok pe -> 0 <= num < den ->
-     instant ps <= instant pe ->
-     datetime_between c s e None (Some num) den = Err (Internal "TypeError")) /\
-  (let c := mkClock 0 0 in
-   let s := mkStamp w_10h None in
-   let e := mkStamp (w_10h + 7200 * US) None in
-   instant s <= instant e /\
-   forall num, 0 <= num < 1024 ->
-     exists x, datetime_between c (SStamp s) (SStamp e) None (Some num) 1024 = Err x).
-Proof. split; [exact datetime_between_naive_fails | exact refuted_timezone_false]. Qed.
-Print Assumptions C11_timezone_false_refuted.
+(* regression for K13 (timezone: False raised after the clamp was introduced; 354b020) *)
+Example C11_timezone_false_regression :
+  let c := mkClock 0 0 in
+  let s := mkStamp (w_10h + 900000) None in
+  let e := mkStamp (w_10h + 3 * US) None in
+  datetime_between c (SStamp s) (SStamp e) None (Some 0) 1024 = Ok (instant s, None) /\
+  datetime_between c (SStamp s) (SStamp e) None (Some 512) 1024 = Ok (w_10h + 1500000, None).
+Proof. exact regression_timezone_false. Qed.
+Print Assumptions C11_timezone_false_regression.
 
 (* regressions for the repaired defects: the old witnesses now satisfy the property *)
 Example C11_offset_regression :      (* K4: start 10:00-05:00 = 15:00Z, end 18:00Z *)
